@@ -79,7 +79,38 @@ func runKernel(name string, t *toks, w *bufio.Writer) {
 		}
 	}
 	outputs := sim.InitialiseOutputs(model, length, 1)
+	// Run must not modify its inputs or parameters (values or extents): snapshot and compare
+	inBefore := append([]float64{}, inputs.Unroll()...)
+	paBefore := append([]float64{}, params.Unroll()...)
+	inShape := append([]int{}, inputs.Shape()...)
+	paShape := append([]int{}, params.Shape()...)
 	model.Run(inputs, states, outputs)
+	same := func(a, b []float64) bool {
+		if len(a) != len(b) {
+			return false
+		}
+		for i := range a {
+			if math.Float64bits(a[i]) != math.Float64bits(b[i]) {
+				return false
+			}
+		}
+		return true
+	}
+	sameI := func(a, b []int) bool {
+		if len(a) != len(b) {
+			return false
+		}
+		for i := range a {
+			if a[i] != b[i] {
+				return false
+			}
+		}
+		return true
+	}
+	if !same(inBefore, inputs.Unroll()) || !same(paBefore, params.Unroll()) || !sameI(inShape, inputs.Shape()) || !sameI(paShape, params.Shape()) {
+		fmt.Fprintln(w, "INPUTS-OR-PARAMETERS-MODIFIED")
+		return
+	}
 	nout := outputs.Len(1)
 	fmt.Fprintf(w, "OK O %d %d", nout, length)
 	for i := 0; i < nout; i++ {
